@@ -1,8 +1,100 @@
 /-
-  C08 — (theorems being added)
+  C08 — rule counts are conserved by grammar binarization
 -/
 import TT.Spec.Grammar
+import TT.Lemmas.GramBin
 namespace TT.Props.C08
-open TT TT.Tree TT.Spec
+open TT TT.Tree TT.Spec TT.Lemmas.GramBin
+
+theorem add_lhsMass (g : Grammar) (f : Func) (l : Lin) (v : VertKey) (n : Nat) (x : Str) :
+    lhsMass (g.add f l v n) x = lhsMass g x + (if f.head? = some x then n else 0) :=
+  lhsMass_add g f l v n x
+
+theorem add_rhsMass (g : Grammar) (f : Func) (l : Lin) (v : VertKey) (n : Nat) (x : Str) :
+    rhsMass (g.add f l v n) x = rhsMass g x + n * (f.drop 1).count x :=
+  rhsMass_add g f l v n x
+
+/-- counts are accumulated: binarizing one rule adds its count once to the LHS label's mass ... -/
+theorem binarizeRule_lhsMass (mo : Option MarkovOpts) (func : Func) (lin : Lin) (cnt : Nat) (vert : List Str)
+    (st : GenState) (res : Grammar) (x : Str) (hx : x.head? ≠ some '@') (h3 : func ≠ []) :
+    lhsMass (binarizeRule mo func lin cnt vert st res).2 x = lhsMass res x + (if func.head? = some x then cnt else 0) := by
+  by_cases h : func.length ≤ 3
+  · rw [binarizeRule_small _ _ _ _ _ _ _ h, lhsMass_add]
+  · rw [binarizeRule_large _ _ _ _ _ _ _ h]
+    simp only
+    rw [lhsMass_add, midOf, binMid_lhsMass _ _ _ _ _ _ hx _ _ _ _ _ _ (nextLabel_head ..), lhsMass_add]
+    have hb := binMid_label mo func vert (fanOut lin) cnt (func.length - 4) 1 _ lin
+      (nextLabel mo st func 0 vert (fanOut lin)).2
+      (res.add [func[0]?.getD [], func[1]?.getD [], (nextLabel mo st func 0 vert (fanOut lin)).1] (topLin lin) .default cnt)
+      (nextLabel_head mo st func 0 vert (fanOut lin))
+    have hne : ∀ b : Str, b.head? = some '@' → b ≠ x := by rintro b hb rfl; exact hx hb
+    have h0 : func.head? = some (func[0]?.getD []) := by
+      cases func with
+      | nil => exact absurd rfl h3
+      | cons a r => simp
+    simp [hne _ hb, h0]
+
+/-- ... and keeps every symbol's balance (LHS mass minus count-weighted RHS occurrences) exactly as the unbinarized rule would -/
+theorem binarizeRule_net (mo : Option MarkovOpts) (func : Func) (lin : Lin) (cnt : Nat) (vert : List Str)
+    (st : GenState) (res : Grammar) (x : Str) (h3 : func ≠ []) :
+    net (binarizeRule mo func lin cnt vert st res).2 x =
+      net res x + (if func.head? = some x then (cnt : Int) else 0) - (cnt : Int) * ((func.drop 1).count x : Int) := by
+  by_cases h : func.length ≤ 3
+  · rw [binarizeRule_small _ _ _ _ _ _ _ h, net_add]
+  · rw [binarizeRule_large _ _ _ _ _ _ _ h]
+    simp only
+    rw [net_add]
+    have hm := binMid_net mo func vert (fanOut lin) cnt x (func.length - 4) 1
+      (nextLabel mo st func 0 vert (fanOut lin)).1 lin (nextLabel mo st func 0 vert (fanOut lin)).2
+      (res.add [func[0]?.getD [], func[1]?.getD [], (nextLabel mo st func 0 vert (fanOut lin)).1] (topLin lin) .default cnt)
+    rw [net_add] at hm
+    have h0 : func.head? = some (func[0]?.getD []) := by
+      cases func with
+      | nil => exact absurd rfl h3
+      | cons a r => simp
+    rw [func_drop_one func h, h0]
+    simp only [midOf]
+    simp only [List.head?_cons, Option.some.injEq, List.drop_succ_cons, List.drop_zero, List.count_cons,
+      List.count_nil, List.count_append, beq_iff_eq] at hm ⊢
+    generalize (binMid mo func vert (fanOut lin) cnt 1 (func.length - 4) _ lin _ _).1 = bl2 at hm ⊢
+    generalize net (binMid mo func vert (fanOut lin) cnt 1 (func.length - 4) _ lin _ _).2.2.2 x = n2 at hm ⊢
+    generalize (nextLabel mo st func 0 vert (fanOut lin)).1 = bl at hm ⊢
+    generalize List.count x (midSyms func 1 (func.length - 4)) = m at hm ⊢
+    generalize net res x = r at hm ⊢
+    generalize func[0]?.getD [] = f0 at hm ⊢
+    generalize func[1]?.getD [] = f1 at hm ⊢
+    generalize func[func.length - 2]?.getD [] = fa at hm ⊢
+    generalize func[func.length - 1]?.getD [] = fb at hm ⊢
+    generalize hc : (cnt : Int) = c at hm ⊢
+    by_cases e1 : bl2 = x <;> by_cases e2 : bl = x <;> by_cases e3 : f0 = x <;> by_cases e4 : f1 = x <;>
+      by_cases e5 : fa = x <;> by_cases e6 : fb = x <;>
+      simp [e1, e2, e3, e4, e5, e6, Int.mul_add, Int.natCast_add] at hm ⊢ <;> omega
+
+theorem binarizeGrammar_lhsMass (r : Reordering) (mo : Option MarkovOpts) (g : Grammar) (x : Str)
+    (hx : x.head? ≠ some '@') (hg : ∀ e ∈ g, e.1 ≠ []) : lhsMass (binarizeGrammar r mo g) x = lhsMass g x := by
+  have hnil : lhsMass ([] : Grammar) x = 0 := by simp [lhsMass, Grammar.rules]
+  cases mo with
+  | some o =>
+    simp only [binarizeGrammar]
+    rw [foldl_sum (fun acc : GenState × Grammar => lhsMass acc.2 x)
+      (fun e : Func × Lin × VertKey × Nat => if e.1.head? = some x then e.2.2.2 else 0)]
+    · simp only [hnil, Nat.zero_add]; exact (lhsMass_eq_entries_sum g x).symm
+    · rintro acc ⟨f, l, v, c⟩ he
+      obtain ⟨p, hp, hpf⟩ := entries_func_mem g _ he
+      have hf : f ≠ [] := by have := hg p hp; rwa [hpf] at this
+      obtain ⟨h1, h2⟩ := reorder_head r f l hf
+      simp only
+      rw [binarizeRule_lhsMass _ _ _ _ _ _ _ x hx h2, h1]
+  | none =>
+    simp only [binarizeGrammar]
+    rw [foldl_sum (fun acc : GenState × Grammar => lhsMass acc.2 x)
+      (fun e : Func × Lin × Nat => if e.1.head? = some x then e.2.2 else 0)]
+    · simp only [hnil, Nat.zero_add]; exact (lhsMass_eq_rules_sum g x).symm
+    · rintro acc ⟨f, l, c⟩ he
+      obtain ⟨p, hp, hpf⟩ := rules_func_mem g _ he
+      have hf : f ≠ [] := by have := hg p hp; rwa [hpf] at this
+      obtain ⟨h1, h2⟩ := reorder_head r f l hf
+      simp only
+      rw [binarizeRule_lhsMass _ _ _ _ _ _ _ x hx h2, h1]
 
 end TT.Props.C08
